@@ -10,6 +10,7 @@ import (
 	"crypto/ecdsa"
 	"crypto/rand"
 	"encoding/json"
+	"errors"
 	"fmt"
 	"github.com/tjfoc/gmsm/sm2"
 	"github.com/tjfoc/gmsm/x509"
@@ -178,10 +179,24 @@ type msgFilter struct {
 	hdr      [5]byte
 	plain    bool
 	applied  bool
+	failW    *failWriteConn
 	held     []byte // swap: message k waiting for k+1
 	closeNow bool
 	record   bool // baseline run: record the message library
 	identity bool // the rewrite did not change anything
+}
+
+// a transport whose Write fails once told so
+type failWriteConn struct {
+	net.Conn
+	fail int32
+}
+
+func (c *failWriteConn) Write(p []byte) (int, error) {
+	if atomic.LoadInt32(&c.fail) != 0 {
+		return 0, errors.New("verif: write on a connection the peer has left (EPIPE)")
+	}
+	return c.Conn.Write(p)
 }
 
 // rewriteHello rebuilds a ClientHello with another client_version / cipher suite list / compression list
@@ -398,6 +413,12 @@ func (f *msgFilter) filter(r *record) []*record {
 				return out
 			}
 			return append(out, r)
+		}
+		if !f.plain && r.typ() == 22 && f.op.Op == "wfail_fin" && !f.applied && f.failW != nil {
+			// the peer's (protected) Finished is about to be handed over: from now on the endpoint's transport refuses to
+			// send, as if the peer had gone away right behind its Finished - the endpoint's own last flight cannot leave
+			atomic.StoreInt32(&f.failW.fail, 1)
+			f.applied = true
 		}
 		return []*record{r}
 	}
@@ -676,11 +697,17 @@ func runC15(c *c15Case, baseline bool) (c15Obs, error) {
 	c1, c2 := net.Pipe()
 	s1, s2 := net.Pipe()
 	cli := gmtls.Client(c1, cc)
-	srv := gmtls.Server(s2, sc)
+	var srvConn net.Conn = s2
+	failW := &failWriteConn{Conn: s2}
+	if c.Op.Op == "wfail_fin" {
+		srvConn = failW
+	}
+	srv := gmtls.Server(srvConn, sc)
 	var last int64
 	touch := func() { atomic.StoreInt64(&last, time.Now().UnixNano()) }
 	touch()
 	flt := &msgFilter{op: c.Op, libKey: fmt.Sprint(c.Role, c.Ca, "/"), plain: true, record: baseline}
+	flt.failW = failW
 	var fltOther *msgFilter
 	if baseline {
 		fltOther = &msgFilter{op: peerOp{Op: "none"}, libKey: flt.libKey, plain: true, record: true}
